@@ -485,6 +485,9 @@ func TestC08(t *testing.T) {
 			}
 		}
 	}
+	if r.Lane == 0 {
+		quicLanes(r, "gating")
+	}
 	ng := r.N(24, 800)
 	for k := 0; k < ng; k++ {
 		for _, lane := range []string{"two-candidates", "probe-before-listeners"} {
